@@ -324,6 +324,33 @@ def _r06f(rep):
 
 
 
+def _r06i(rep):
+    """Orientation of the supercell matrix the commensurate points are generated from (frame typing)."""
+    from engine import frames
+    from engine.frames import C as CART, L as LAT
+    from rules.c04 import PMAT, SIGS
+
+    rep.rule("R06i", "the matrix handed to get_commensurate_points in DynmatToForceConstants.__init__ is the supercell matrix relative to the primitive cell in the orientation cell_s^T = cell_p^T S (frame typing: component index of the primitive lattice x basis index of the supercell lattice), i.e. inv(primitive matrix); built from the row-vector lattices as cell_s cell_p^-1 it is S^T, which has the same determinant and gives points that are not commensurate whenever S and S^T generate different lattices", 1)
+    rel = "phonopy/harmonic/dynmat_to_fc.py"
+    fn = core.find_def(rel, "DynmatToForceConstants.__init__")
+    want = (LAT("p", "+"), LAT("s", "-"))
+    sigs = dict(SIGS)
+    sigs["get_commensurate_points"] = {"pos": [want]}
+    ty = frames.Typer(fn, seeds={"self._pcell.primitive_matrix": PMAT, "self._scell.cell": (LAT("s", "-"), CART), "self._pcell.cell": (LAT("p", "-"), CART), "primitive.primitive_matrix": PMAT, "supercell.cell": (LAT("s", "-"), CART), "primitive.cell": (LAT("p", "-"), CART)}, params={}, call_sigs=sigs, where=f"{rel}::DynmatToForceConstants.__init__")
+    problems = ty.run()
+    calls = [c for c in ast.walk(fn) if isinstance(c, ast.Call) and core.src(c.func).split(".")[-1] == "get_commensurate_points" and c.args]
+    if len(calls) != 1:
+        raise AnalysisError("R06i: DynmatToForceConstants.__init__ no longer calls get_commensurate_points once")
+    arg = calls[0].args[0]
+    problems = list(problems)
+    got = ty.env.get(arg.id) if isinstance(arg, ast.Name) else ty.expr(arg)
+    if got is None and not problems:
+        raise AnalysisError(f"R06i: the matrix '{core.src(arg)}' handed to get_commensurate_points could not be typed")
+    ok = not problems and frames.same_axis(got[0], want[0]) is not False and frames.same_axis(got[1], want[1]) is not False
+    rep.instance("R06i", rel, "DynmatToForceConstants.__init__", f"get_commensurate_points({core.src(arg)}) : {frames.show(got)}", ok,
+                 (problems[0].message if problems else f"the matrix is typed {frames.show(got)}") + f", not {frames.show(want)}: the commensurate points are those of the transposed supercell matrix (same count, same determinant); for off-diagonal or anisotropic centred supercells S^T q is not integral and the round trip force constants -> D(q) -> force constants loses information", line=calls[0].lineno)
+
+
 def _r06h(rep):
     """Extended Euclid step behind the Smith normal form: the remainder handed to the next step is never negative, so the
     gcd (and with it the diagonal of D that range(D[i]) enumerates) comes out non-negative."""
@@ -423,6 +450,7 @@ def run(rep: core.Report):
     _run_main(rep)
     _r06f(rep)
     _r06h(rep)
+    _r06i(rep)
     from rules import shared_trunc
 
     shared_trunc.run(rep, "R06g")
@@ -432,6 +460,9 @@ def selftest():
     V = []
     b = lambda name, file, old, new, rule, expect="", **kw: V.append(dict(name=name, kind="break", file=file, old=old, new=new, rule=rule, expect=expect, **kw))
     n = lambda name, file, old, new, **kw: V.append(dict(name=name, kind="neutral", file=file, old=old, new=new, **kw))
+    D2F_ = "phonopy/harmonic/dynmat_to_fc.py"
+    b("supercell matrix from the row-vector lattices (transposed)", D2F_, "        supercell_matrix = np.linalg.inv(self._pcell.primitive_matrix)\n", "        supercell_matrix = np.dot(self._scell.cell, np.linalg.inv(self._pcell.cell))\n", "R06i", "get_commensurate_points")
+    n("supercell matrix from the column-vector lattices", D2F_, "        supercell_matrix = np.linalg.inv(self._pcell.primitive_matrix)\n", "        supercell_matrix = np.dot(np.linalg.inv(self._pcell.cell.T), self._scell.cell.T)\n")
     b("inverse phase with the forward sign", DYN, "                phase -= comm_points[k][m] * svecs[svecs_adrs + l][m];", "                phase += comm_points[k][m] * svecs[svecs_adrs + l][m];", "R06a", "")
     b("inverse combines Re and Im with a plus", DYN, "                    (dm[adrs][0] * cos_phase - dm[adrs][1] * sin_phase) * coef;", "                    (dm[adrs][0] * cos_phase + dm[adrs][1] * sin_phase) * coef;", "R06a", "")
     b("inverse forgets 1/N", DYN, "    coef = sqrt(masses[i] * masses[s2pp_map[j]]) / N;", "    coef = sqrt(masses[i] * masses[s2pp_map[j]]);", "R06a", "")
